@@ -274,7 +274,12 @@ class AbstractDateTime(AnyAtomicType):
             raise TypeError("wrong type %r for operand %r" % (type(other), other))
 
         if self._year != year:
-            return op(self._year, year)
+            # BCE years are stored without a year 0: -1 is the year before 1
+            if abs(self._year + (self._year < 0) - year - (year < 0)) > 1 or \
+                    not isinstance(other, AbstractDateTime):
+                return op(self._year, year)
+            # adjacent years: the timezones decide (2000-01-01T00:00:00+14:00 is in 1999 UTC)
+            return op(self.todelta(), other.todelta())
         elif self._dt.tzinfo is dt.tzinfo:
             return op(self._dt, dt)
         elif self.tzinfo is None:
